@@ -120,6 +120,10 @@ def inactive_clamp(got, want, eq):
     zero arm is taken only where Y is 0 already, so the clamp changes nothing in real arithmetic.  A threshold above 0
     (`m2 < EPSILON`) is NOT inactive: it wipes small positive values."""
     from terms import lit
+    if isinstance(got, tuple) and got[0] == "max" and len(got) == 3:
+        # Y.max(c) with c <= 0: the same clamp written with f64::max
+        c_, y_ = (got[1], got[2]) if is_const(got[1]) else (got[2], got[1])
+        return is_const(c_) and c_[2] <= 0 and eq(y_, want)
     if not (isinstance(got, tuple) and got[0] == "gamma"):
         return False
     a, pol = lit(got[1])
@@ -196,6 +200,9 @@ def check_sums(F, S, tss, classes, s, roles, inv, post_expect, out_expect, rid, 
                         keep = x[3] if x[2] == cf(0.0) else x[2]
                         if inactive_clamp(x, keep, u.eq):
                             alts.append(sub(got, {x: keep}))
+                    elif x[0] == "max" and len(x) == 3 and (x[1] == cf(0.0) or x[2] == cf(0.0)):
+                        keep = x[2] if x[1] == cf(0.0) else x[1]
+                        alts.append(sub(got, {x: keep}))
                 if not any(u.N.key(a_) == u.N.key(oe) or u.eq(a_, oe) for a_ in alts):
                     fails.append("%s%s: output %s is not %s" % (which, " (first call)" if zero else "", show(got)[:110], show(oe)[:90]))
         if best is None or len(fails) < len(best[1]):
